@@ -31,16 +31,21 @@ RULE = ('(a) cases = (text, input implementation, offset): every string over {a,
         '(exhaustive, sharded by prefix) plus seeded random texts up to 2000 chars mixing LF/CR/CRLF, x {TextLines, Buffer} '
         'x every offset 0..len, each observed through lineinfo/lineat/poscol/line/col/get_line and compared with an '
         'independent splitter; (b) cases = (grammar, start, input, variant) with parseinfo on: seeded random grammars with '
-        'named elements (some rules typed -> model nodes through asmodel/ModelBuilderSemantics) and hand-written typed '
-        'grammars, inputs derivation-guided with leading/inter-token blanks, CR/LF/CRLF and comments; every AST/Node in the '
+        'named elements (some rules typed -> model nodes through asmodel/ModelBuilderSemantics; some rules decorated '
+        '@nomemo/@nostak; model, text-compiled and GENERATED-parser routes) and hand-written typed grammars (incl. a '
+        'left-recursive cycle entered mid-text, nullable tail rules matching at end of text, decorated copies), inputs derivation-guided with leading/inter-token blanks, CR/LF/CRLF and comments; every AST/Node in the '
         'result is looked up in REF\'s table of successful rule evaluations. non-trivial = (a) a text with >=1 line break or '
         'an offset at end of text, distinct by (text, impl); (b) an accepted parse in which >=1 AST/Node parseinfo was '
         'checked, distinct by (grammar text, start, input, variant)')
 ASSUMPTIONS = [
     'line breaks are exactly CRLF, LF and CR (the alphabet the quantifier fixes: letter, space, LF, CR); other unicode '
     'line separators are outside the statement and never generated',
-    'offset == len(text) is ambiguous in the statement: both "one past the last character" and "clamped to the last '
-    'character" are accepted there (per accessor; lineinfo as a whole tuple); offsets > len are not exercised',
+    'offset == len(text) is ambiguous in the statement for the cursor accessors of part (a): both "one past the last '
+    'character" and "clamped to the last character" are accepted there (per accessor; lineinfo as a whole tuple); '
+    'offsets > len are not exercised. For parseinfo.line (part b) the start line is the number of line breaks before '
+    '`pos`, also for pos == len(text): a node that starts after a trailing line break is on the new, empty last line',
+    '@nomemo / @nostak (and the @tatsu.nomemo marks the code generator derives from its left-recursion analysis) only '
+    'change caching and tracing: REF ignores them and the same (rule, pos, endpos, value, line) is required',
     'whether a line\'s text/end include the line break is left open by the statement: both are accepted provided '
     '`text == source[start:end]`',
     'REF (vt/ref.py) decides which rule evaluations succeeded, where they start after leading whitespace/comments and what '
@@ -70,20 +75,28 @@ FLOORS = {
               'a_failinfo_checked': 1000,
               'b_accepted': 15000, 'b_nodes_checked': 18000, 'b_ast_nodes': 9000, 'b_model_nodes': 9000,
               'b_value_compared': 12000, 'b_after_leading_ws': 9000, 'b_line_nonzero': 8000,
-              'b_pos_at_end_of_text': 1000, 'b_enable:directive': 5000, 'b_enable:setting': 5000,
-              'b_impl:Buffer': 4000, 'b_impl:TextLines': 2000, 'b_impl:str': 4000, 'b_route:text': 2000,
+              'b_pos_at_end_of_text': 2500, 'b_enable:directive': 5000, 'b_enable:setting': 5000,
+              'b_impl:Buffer': 4000, 'b_impl:TextLines': 2000, 'b_impl:str': 4000, 'b_route:text': 1700,
+              'b_route:generated': 2000, 'b_accepted_decorated_nomemo_nostak': 4000,
+              'b_accepted_generated_with_uncached_rules': 800, 'b_nodes_of_uncached_rules': 6000,
+              'b_nodes_of_uncached_rules_after_leading_ws': 3500, 'b_nodes_of_uncached_rules_after_line_break': 2000,
+              'b_pos_at_end_of_text_after_trailing_break': 1200,
               'b_mode:asmodel': 3000, 'b_mode:builder': 3000, 'b_mode:ast': 3500,
               'b_failinfo_checked': 7000},
     'thorough': {'a_strings': 349525, 'a_offsets_checked': 7000000, 'a_offsets:end-of-text': 350000,
                  'a_offsets:on-cr': 600000, 'a_offsets:on-lf': 600000, 'a_offsets:on-cr-of-crlf': 200000,
                  'a_offsets:on-lf-of-crlf': 200000, 'a_offsets:empty-text': 2, 'a_long_texts': 6000,
                  'a_long_offsets': 3000000, 'a_failinfo_checked': 20000,
-                 'b_accepted': 1000000, 'b_nodes_checked': 1000000, 'b_ast_nodes': 500000, 'b_model_nodes': 500000,
+                 'b_accepted': 1000000, 'b_nodes_checked': 1000000, 'b_ast_nodes': 450000, 'b_model_nodes': 430000,
                  'b_value_compared': 700000, 'b_after_leading_ws': 500000, 'b_line_nonzero': 450000,
                  'b_pos_at_end_of_text': 100000, 'b_enable:directive': 350000, 'b_enable:setting': 350000,
                  'b_impl:Buffer': 280000, 'b_impl:TextLines': 150000, 'b_impl:str': 280000,
-                 'b_mode:asmodel': 220000, 'b_mode:builder': 220000, 'b_mode:ast': 280000,
-                 'b_route:text': 110000, 'b_failinfo_checked': 500000},
+                 'b_mode:asmodel': 160000, 'b_mode:builder': 180000, 'b_mode:ast': 220000,
+                 'b_route:text': 80000, 'b_route:generated': 100000, 'b_failinfo_checked': 400000,
+                 'b_accepted_decorated_nomemo_nostak': 200000, 'b_accepted_generated_with_uncached_rules': 35000,
+                 'b_nodes_of_uncached_rules': 300000, 'b_nodes_of_uncached_rules_after_leading_ws': 170000,
+                 'b_nodes_of_uncached_rules_after_line_break': 100000,
+                 'b_pos_at_end_of_text_after_trailing_break': 55000},
 }
 SHARD_TIMEOUT = {'quick': 600, 'thorough': 3000}
 PEAK_COUNTERS = ('b_max_rules_in_one_tree',)
@@ -1138,11 +1151,11 @@ MANIFEST = {
                   'thorough) and every position accessor of the real cursors is compared with an independent splitter; random texts '
                   'up to 2000 chars mix the three conventions; FailedParse.info is compared with the splitter at FailedParse.pos. '
                   '(b) random and hand-written grammars are parsed by the real engine with parseinfo on (directive and setting, '
-                  'text and object route, str/TextLines/Buffer input, plain ASTs and model nodes) and every AST/Node found in the '
+                  'text, object and generated-parser route, @nomemo/@nostak rules, str/TextLines/Buffer input, plain ASTs and model nodes) and every AST/Node found in the '
                   'result must carry a parseinfo that names a successful REF evaluation (rule, start after leading whitespace, end, '
                   'equal value) and the splitter\'s line of its start. exploration is the right level: the grammar x input space '
                   'is unbounded; the finite slice of (a) is exhaustive',
-    'level_note': 'trusted: vt/monitors/c12_lines.py (the splitter), vt/ref.py, python re. Offset == len accepts both readings; '
+    'level_note': 'trusted: vt/monitors/c12_lines.py (the splitter), vt/ref.py, python re. For the cursor accessors offset == len accepts both readings; parseinfo.line at pos == len must be the one-past line; '
                   'line text may or may not carry its break. Value comparison is skipped for executions through documented-open '
                   'corners. endline, Node.text and the parseinfo handed to semantic actions are outside the statement (counted). '
                   'held = no disagreement on the executions listed in the evidence, not a proof',
